@@ -107,3 +107,11 @@ claim('C09', 'inductive-step symbolic execution of one real writer call from an 
       'unchanged and (_stack, _prev_section) are deep-equal; if accepted, only appending writes occurred and the '
       'invariant holds again (induction over histories). Constructor and all public-API call sequences of length 4 / 6.',
       BASE_NOTE + ' OS-level write failures are outside the claim.', 'DESIGN.md section 4, C09; Appendix A')
+
+claim('C13', 'bounded symbolic execution of the real generate_stats: diffs assembled from hunk shapes with symbolic payload/garbage bytes (QF_BV) and aggregation over symbolic integer figures (LIA), z3',
+      'File level: diffs of 1-2 hunks from a shape catalogue with symbolic payloads and garbage lines, unix/dos, explicit '
+      'or detected line_endings, diff encoding unset/utf-8/utf-16-le/utf-16, with or without pre-existing stats: counts '
+      'equal the ground truth, custom keys kept, second call changes nothing; binary/absent/unparsable diffs untouched. '
+      'Aggregation: per-file figures are unconstrained z3 integers in trees up to 2x2 (quick) / 3x3 (thorough); sums and '
+      'counts are shown for all integers, custom keys preserved, idempotent.',
+      BASE_NOTE, 'DESIGN.md section 4, C13')
